@@ -1,9 +1,66 @@
-(** Property C02 — theorems only (statement, [exact], [Print Assumptions]).
-    See DESIGN.md section 5 for how each statement renders the property. *)
-From CB Require Import ProofLib Spec Inv_map.
+(** Property C02 - termination is final
+    Theorems only: statement, [exact], [Print Assumptions].  The statements are about the model
+    (coq/theories/Ops.v) under the conformant environment (Machine.v: [reach]); the readable trace
+    predicates are defined in MonitorSound.v, the parameter regimes in Results.v.  How each
+    statement renders the property, and how the model is tied to /repo, is in DESIGN.md. *)
+From CB Require Import ProofLib Spec MonitorSound Results.
+From CB Require Import Inv_combine Inv_share.
 
-Theorem C02_map (f : val -> val) p :
-  nsinks p = 1 -> resub p = false -> no_nest p = false -> c14 p = false ->
-  forall c : cfg (map_op f), reach p g_std c -> viols (ms c) = [] /\ dead c = false.
-Proof. exact (@map_safe f p). Qed.
+Theorem C02_map (f : val -> val) p (c : cfg (map_op f)) :
+  std p -> reach p g_std c -> forall s, term_final s (trace c).
+Proof. exact (fun H Hc => pk_c02 (map_protocol H Hc)). Qed.
 Print Assumptions C02_map.
+
+Theorem C02_filter (cond : val -> bool) p (c : cfg (filter_op cond)) :
+  std p -> reach p g_std c -> forall s, term_final s (trace c).
+Proof. exact (fun H Hc => pk_c02 (filter_protocol H Hc)). Qed.
+Print Assumptions C02_filter.
+
+Theorem C02_scan (r : val -> val -> val) (seed : val) p (c : cfg (scan_op r seed)) :
+  std p -> reach p g_std c -> forall s, term_final s (trace c).
+Proof. exact (fun H Hc => pk_c02 (scan_protocol H Hc)). Qed.
+Print Assumptions C02_scan.
+
+Theorem C02_skip (max : nat) p (c : cfg (skip_op max)) :
+  std p -> reach p g_std c -> forall s, term_final s (trace c).
+Proof. exact (fun H Hc => pk_c02 (skip_protocol H Hc)). Qed.
+Print Assumptions C02_skip.
+
+Theorem C02_take (max : nat) p (c : cfg (take_op max)) (Hmax : 1 <= max) :
+  std p -> reach p g_std c -> forall s, term_final s (trace c).
+Proof. exact (fun H Hc => pk_c02 (take_protocol Hmax H Hc)). Qed.
+Print Assumptions C02_take.
+
+Theorem C02_from_iter (it : nat -> option val) p (c : cfg (from_iter_op it)) :
+  std_nonest p -> reach p g_std c -> forall s, term_final s (trace c).
+Proof. exact (fun H Hc => pk_c02 (from_iter_protocol H Hc)). Qed.
+Print Assumptions C02_from_iter.
+
+Theorem C02_interval p (c : cfg interval_op) :
+  std p -> reach p (fun _ _ => true) c -> forall s, term_final s (trace c).
+Proof. exact (fun H Hc => pk_c02 (interval_protocol H Hc)). Qed.
+Print Assumptions C02_interval.
+
+Theorem C02_merge (n : nat) p (c : cfg (merge_op n)) (Hn : 1 <= n) :
+  std_late p -> reach p g_std c -> forall s, term_final s (trace c).
+Proof. exact (fun H Hc => pk_c02 (merge_protocol Hn H Hc)). Qed.
+Print Assumptions C02_merge.
+
+Theorem C02_concat (n : nat) p (c : cfg (concat_op n)) :
+  std p -> reach p g_std c -> forall s, term_final s (trace c).
+Proof. exact (fun H Hc => pk_c02 (concat_protocol H Hc)). Qed.
+Print Assumptions C02_concat.
+
+(** share, for every number of sinks, as C12 quantifies it (no nested fan-out: guard [g_share]) *)
+Theorem C02_share p (c : cfg share_op) :
+  share_regime p -> reach p g_share c -> forall s, term_final s (trace c).
+Proof. exact (fun H Hc => sk_c02 (share_protocol H Hc)). Qed.
+Print Assumptions C02_share.
+
+(** combine (every arity n >= 1).  combine has recorded deviations (known_findings.json: KF1, KF2);
+    the theorem is that the monitor never records anything *but* those four kinds, so the
+    kinds of this property never occur. *)
+Theorem C02_combine (n : nat) p (c : cfg (combine_op n)) :
+  1 <= n -> std p -> reach p g_std c -> (forall s, ~ In (VAfterFinish s) (viols (ms c))).
+Proof. exact (@combine_c02 n p c). Qed.
+Print Assumptions C02_combine.
